@@ -102,7 +102,12 @@ class Coords:
 KINDS = ["gauss_diag", "gauss_unit", "gauss_scaling", "gauss_sandwich", "poisson", "bernoulli", "invgamma",
          "invgamma_field_alpha", "studentt", "categorical", "vcg_real", "vcg_cplx", "sgamma_real", "sgamma_cplx",
          "scaled_poisson", "model_poisson", "sum_gauss_bernoulli", "hamiltonian_poisson", "scaled_model_vcg_real",
-         "cgauss", "cplx_scaling_gauss", "cplx_diag_gauss", "cplx_chain_gauss"]
+         "cgauss", "cplx_scaling_gauss", "cplx_diag_gauss", "cplx_chain_gauss",
+         # the same energies with every data dtype the constructors accept ("kind@dtype"): unsigned and
+         # narrow integers (masks, detector files) and float32 data
+         "gauss_diag@float32", "gauss_unit@float32"]
+INT_DTYPES = ("int64", "int32", "uint8", "uint16", "uint64")
+KINDS += ["%s@%s" % (k, t) for k in ("bernoulli", "poisson", "categorical") for t in INT_DTYPES[1:]]
 
 
 def krng(kind, seed):
@@ -124,6 +129,9 @@ def make(kind, seed, n=3):
     dom = ift.UnstructuredDomain(n)
     I = Inst()
     I.kind, I.seed, I.n = kind, seed, n
+    kind, _, dtn = kind.partition("@")
+    idt = np.dtype(dtn) if (dtn and np.issubdtype(np.dtype(dtn), np.integer)) else np.dtype(np.int64)     # integer data
+    fdt = np.dtype(dtn) if (dtn and np.issubdtype(np.dtype(dtn), np.floating)) else np.dtype(np.float64)  # real data
     F = lambda a: ift.Field.from_raw(dom, np.asarray(a))
     dt = np.float64
 
@@ -133,8 +141,10 @@ def make(kind, seed, n=3):
         return I
 
     if kind.startswith("gauss"):
-        d = rng.normal(size=n) * 2
+        d = (rng.normal(size=n) * 2).astype(fdt)          # float32 data: the values ARE the float32 numbers
         x = rng.normal(size=n) * 2
+        if fdt != np.float64:
+            dt = fdt                                       # GaussianEnergy insists on sampling dtype == data dtype
         if kind == "gauss_diag":
             ic = np.exp(rng.normal(size=n))
             icov = ift.makeOp(F(ic), sampling_dtype=dt)
@@ -149,8 +159,8 @@ def make(kind, seed, n=3):
             a, c = np.exp(rng.normal(size=n) * 0.5), np.exp(rng.normal(size=n))
             ic = a * a * c
             icov = ift.SandwichOperator.make(ift.makeOp(F(a)), ift.makeOp(F(c), sampling_dtype=dt))
-        I.params = {"d": d, "icov": ic}
-        I.logp = lambda p: float(np.sum(st.norm.logpdf(d, loc=p.asnumpy(), scale=1 / np.sqrt(ic))))
+        I.params = {"d": d.astype(np.float64), "icov": ic}
+        I.logp = lambda p: float(np.sum(st.norm.logpdf(d.astype(np.float64), loc=p.asnumpy(), scale=1 / np.sqrt(ic))))
         return finish(ift.GaussianEnergy(data=F(d), inverse_covariance=icov), F(x))
     if kind == "cgauss":
         # complex data, real diagonal precision: re and im independent with inverse variance icov each
@@ -189,15 +199,16 @@ def make(kind, seed, n=3):
         return finish(base.energy @ model, F(x), np.complex128)
     if kind == "poisson":
         x = np.exp(rng.normal(size=n))
-        d = rng.poisson(x * 2).astype(np.int64)
-        I.params = {"d": d}
-        I.logp = lambda p: float(np.sum(st.poisson.logpmf(d, p.asnumpy())))
+        d = rng.poisson(x * 2).astype(idt)
+        I.params = {"d": d.astype(np.int64)}
+        I.logp = lambda p: float(np.sum(st.poisson.logpmf(d.astype(np.int64), p.asnumpy())))
         return finish(ift.PoissonianEnergy(F(d)), F(x))
     if kind == "bernoulli":
         x = rng.uniform(0.05, 0.95, size=n)
-        d = (rng.uniform(size=n) < 0.5).astype(np.int64)
-        I.params = {"d": d}
-        I.logp = lambda p: float(np.sum(st.bernoulli.logpmf(d, p.asnumpy())))
+        d = (rng.uniform(size=n) < 0.5).astype(idt)
+        d[0], d[1] = 0, 1                                   # both outcomes occur
+        I.params = {"d": d.astype(np.int64)}
+        I.logp = lambda p: float(np.sum(st.bernoulli.logpmf(d.astype(np.int64), p.asnumpy())))
         return finish(ift.BernoulliEnergy(F(d)), F(x))
     if kind in ("invgamma", "invgamma_field_alpha"):
         x = np.exp(rng.normal(size=n))
@@ -223,9 +234,9 @@ def make(kind, seed, n=3):
         dom2 = ift.DomainTuple.make((ift.UnstructuredDomain(K), ift.UnstructuredDomain(rows)))
         p = rng.dirichlet(np.ones(K) * 2, size=rows).T          # (K, rows), columns sum to 1
         idx = rng.integers(0, K, size=rows)
-        d = np.zeros((K, rows), dtype=np.int64)
+        d = np.zeros((K, rows), dtype=idt)
         d[idx, np.arange(rows)] = 1
-        I.params = {"d": d}
+        I.params = {"d": d.astype(np.int64)}
         I.logp = lambda q: float(np.sum(np.log(q.asnumpy())[idx, np.arange(rows)]))
         I.energy = ift.CategoricalEnergy(ift.Field.from_raw(dom2, d), axis=0)
         I.x = ift.Field.from_raw(dom2, p)
@@ -347,6 +358,10 @@ def fisher_exact(kind, seed):
     from scipy import integrate
     from nifty.cl.operators import energy_operators as eo
     rng = krng(kind, seed + 7919)
+    kind, _, dtn = kind.partition("@")
+    idt = np.dtype(dtn) if (dtn and np.issubdtype(np.dtype(dtn), np.integer)) else np.dtype(np.int64)
+    if dtn and not np.issubdtype(np.dtype(dtn), np.integer):
+        return None                      # float32 data: the exact expectation is the float64 one (same code path)
     dom = ift.UnstructuredDomain(1)
     F = lambda a: ift.Field.from_raw(dom, np.asarray(a))
     gh_x, gh_w = np.polynomial.hermite_e.hermegauss(12)
@@ -382,15 +397,15 @@ def fisher_exact(kind, seed):
         x = logu(rng, 0.2, 6)
         co = Coords(dom, np.float64)
         dmax = int(x + 12 * math.sqrt(x) + 30)
-        fis = sum(st.poisson.pmf(d, x) * np.outer(*(2 * [score(ift.PoissonianEnergy(F(np.array([d], dtype=np.int64))), F([x]), co)]))
+        fis = sum(st.poisson.pmf(d, x) * np.outer(*(2 * [score(ift.PoissonianEnergy(F(np.array([d], dtype=idt))), F([x]), co)]))
                   for d in range(dmax + 1))
-        return metric_dense_of(ift.PoissonianEnergy(F(np.array([0], dtype=np.int64))), F([x]), co), fis
+        return metric_dense_of(ift.PoissonianEnergy(F(np.array([0], dtype=idt))), F([x]), co), fis
     if kind == "bernoulli":
         x = float(rng.uniform(0.05, 0.95))
         co = Coords(dom, np.float64)
-        fis = sum(pr * np.outer(*(2 * [score(ift.BernoulliEnergy(F(np.array([d], dtype=np.int64))), F([x]), co)]))
+        fis = sum(pr * np.outer(*(2 * [score(ift.BernoulliEnergy(F(np.array([d], dtype=idt))), F([x]), co)]))
                   for d, pr in ((0, 1 - x), (1, x)))
-        return metric_dense_of(ift.BernoulliEnergy(F(np.array([0], dtype=np.int64))), F([x]), co), fis
+        return metric_dense_of(ift.BernoulliEnergy(F(np.array([0], dtype=idt))), F([x]), co), fis
     if kind in ("invgamma", "invgamma_field_alpha"):
         x, al = logu(rng, 0.3, 3), float(rng.uniform(-0.5, 3))
         co = Coords(dom, np.float64)
@@ -415,7 +430,7 @@ def fisher_exact(kind, seed):
         P = ift.Field.from_raw(dom2, p)
 
         def mk(k):
-            d = np.zeros((K, 1), dtype=np.int64)
+            d = np.zeros((K, 1), dtype=idt)
             d[k, 0] = 1
             return ift.CategoricalEnergy(ift.Field.from_raw(dom2, d), axis=0)
         fis = sum(p[k, 0] * np.outer(*(2 * [score(mk(k), P, co)])) for k in range(K))
@@ -471,6 +486,7 @@ def run_instance(kind, seed):
     import nifty.cl as ift
     fails = []
     I = make(kind, seed)
+    full_kind, kind = kind, kind.partition("@")[0]
     co = I.coords
     x0 = co.to_vec(I.x)
     E0 = energy_value(I.energy, I.x)
@@ -486,7 +502,7 @@ def run_instance(kind, seed):
         fails.append(("gradient", {"gradient": g.tolist(), "finite_difference": fd.tolist()}))
     # (b) E(x) - E(x') = -ln p(d|x) + ln p(d|x')
     if I.logp is not None:
-        rng = krng(kind, seed + 31)
+        rng = krng(full_kind, seed + 31)
         x1 = co.to_field(x0 * (1 + 0.05 * rng.uniform(-1, 1, size=co.n))) if kind != "categorical" else I.x
         if kind == "categorical":
             a = I.x.asnumpy() * (1 + 0.05 * rng.uniform(-1, 1, size=I.x.shape))
@@ -513,7 +529,7 @@ def run_instance(kind, seed):
         if not close(M, X, 1e-9, atol=1e-12 * (1 + np.max(np.abs(M)))):
             fails.append(("composite", {"metric": M.tolist(), "expected": np.asarray(X).tolist()}))
     # (d) metric == exact Fisher information (one-pixel instance of the same kind)
-    fx = fisher_exact(kind, seed)
+    fx = fisher_exact(full_kind, seed)
     if fx is not None:
         Mf, Fi = fx
         if not close(Mf, Fi, 1e-6, atol=1e-8 * (1 + np.max(np.abs(Mf)))):
@@ -536,10 +552,10 @@ def corr_cases(rend, seed, nrep):
     R = rend
     for rep in range(nrep):
         s = seed * 1000 + rep
-        for kind in ("gauss_diag", "gauss_unit", "gauss_scaling", "gauss_sandwich"):
+        for kind in ("gauss_diag", "gauss_unit", "gauss_scaling", "gauss_sandwich", "gauss_diag@float32", "gauss_unit@float32"):
             I = make(kind, s)
             d, ic, x = I.params["d"], I.params["icov"], I.x.asnumpy()
-            if kind == "gauss_unit":
+            if kind.startswith("gauss_unit"):
                 m = sum(0.5 * R["gauss_sqnorm"](R["gauss_residual"](di, xi)) for di, xi in zip(d, x))
             else:
                 m = sum(R["gauss_quadform"](ci, R["gauss_residual"](di, xi)) for di, ci, xi in zip(d, ic, x))
@@ -550,8 +566,12 @@ def corr_cases(rend, seed, nrep):
                   "invgamma": ("invgamma_E", "invgamma_t", lambda I, i: (float(I.params["alpha"][i] + 1), float(I.params["beta"][i]))),
                   "invgamma_field_alpha": ("invgamma_E", "invgamma_t", lambda I, i: (float(I.params["alpha"][i] + 1), float(I.params["beta"][i]))),
                   "studentt": ("studentt_E", "studentt_t", lambda I, i: (float(I.params["theta"]),))}
-        for kind, (en, tn, par) in simple.items():
-            I = make(kind, s)
+        variants = [(k, k) for k in simple] + [("poisson", "poisson@" + t) for t in INT_DTYPES[1:]] \
+            + [("bernoulli", "bernoulli@" + t) for t in INT_DTYPES[1:]]
+        for kind, vk in variants:
+            en, tn, par = simple[kind]
+            I = make(vk, s)
+            kind = vk
             x = I.x.asnumpy()
             yield "%s energy" % kind, sum(R[en](*(par(I, i) + (float(x[i]),))) for i in range(I.n)), energy_value(I.energy, I.x)
             _, t = I.energy.get_transformation()
@@ -563,12 +583,13 @@ def corr_cases(rend, seed, nrep):
             else:
                 tv = [R[tn](float(x[i])) for i in range(I.n)]
             yield "%s transformation" % kind, tv, t(I.x).asnumpy()
-        I = make("categorical", s)
-        x, d = I.x.asnumpy(), I.params["d"]
-        yield "categorical energy", sum(R["categorical_E"](float(d[k, j]), float(x[k, j])) for k in range(x.shape[0]) for j in range(x.shape[1])), \
-            energy_value(I.energy, I.x)
-        _, t = I.energy.get_transformation()
-        yield "categorical transformation", [[R["categorical_t"](float(v)) for v in row] for row in x], t(I.x).asnumpy()
+        for ck in ["categorical"] + ["categorical@" + t for t in INT_DTYPES[1:]]:
+            I = make(ck, s)
+            x, d = I.x.asnumpy(), I.params["d"]
+            yield "%s energy" % ck, sum(R["categorical_E"](float(d[k, j]), float(x[k, j])) for k in range(x.shape[0]) for j in range(x.shape[1])), \
+                energy_value(I.energy, I.x)
+            _, t = I.energy.get_transformation()
+            yield "%s transformation" % ck, [[R["categorical_t"](float(v)) for v in row] for row in x], t(I.x).asnumpy()
         for kind in ("vcg_real", "vcg_cplx"):
             I = make(kind, s)
             r, iv = I.x["r"].asnumpy(), I.x["i"].asnumpy()
